@@ -1,0 +1,58 @@
+//go:build verif
+
+// Contracts for package persistence, read by /verif/gocv (comment-only; no code).
+package persistence
+
+// ---- C13: MemoryMetastore is an insert-only, read-your-writes table (strong contract, checked against the code) ----
+// View: has(id, c) = id in s.Envelopes && c in s.Envelopes[id]; row(id, c) = s.Envelopes[id][c].
+// Each method is specified on its critical section: old(...) is the state right after the lock is acquired.
+
+//@ monitor (*MemoryMetastore).RWMutex
+//@   facet C13
+//@   guards Envelopes
+//@   invariant [inner-maps-exist] this.Envelopes != nil && (forall id string :: id in this.Envelopes ==> this.Envelopes[id] != nil && valid(this.Envelopes[id]) && len(this.Envelopes[id]) >= 1)
+//@   invariant [inner-maps-distinct] forall a string, b string :: a in this.Envelopes && b in this.Envelopes && a != b ==> this.Envelopes[a] != this.Envelopes[b]
+
+//@ func (*MemoryMetastore).Store
+//@   facet C13
+//@   safety C13
+//@   opt no-frame
+//@   opt old-at-acquire
+//@   requires s != nil && s.RWMutex == 0
+//@   ensures [C13:lock-released] s.RWMutex == 0
+//@   ensures [C13:duplicate-reports-false] old(keyID in s.Envelopes && created in s.Envelopes[keyID]) ==> !result && err == nil
+//@   ensures [C13:insert-when-absent] !old(keyID in s.Envelopes && created in s.Envelopes[keyID]) ==> result && err == nil && keyID in s.Envelopes && created in s.Envelopes[keyID] && s.Envelopes[keyID][created] == envelope
+//@   ensures [C13:existing-rows-untouched] forall id string, c int64 :: old(id in s.Envelopes && c in s.Envelopes[id]) ==> id in s.Envelopes && c in s.Envelopes[id] && s.Envelopes[id][c] == old(s.Envelopes[id][c])
+//@   ensures [C13:nothing-else-added] forall id string, c int64 :: id in s.Envelopes && c in s.Envelopes[id] && !(id == keyID && c == created) ==> old(id in s.Envelopes && c in s.Envelopes[id])
+
+//@ func (*MemoryMetastore).Load
+//@   facet C13
+//@   safety C13
+//@   opt no-frame
+//@   opt old-at-acquire
+//@   requires s != nil && s.RWMutex == 0
+//@   ensures [C13:lock-released] s.RWMutex == 0
+//@   ensures [C13:load-returns-the-row] err == nil && (old(keyID in s.Envelopes && created in s.Envelopes[keyID]) ==> result == old(s.Envelopes[keyID][created]))
+//@   ensures [C13:load-nothing-when-absent] !old(keyID in s.Envelopes && created in s.Envelopes[keyID]) ==> result == nil
+//@   ensures [C13:reads-change-nothing] forall id string, c int64 :: (id in s.Envelopes && c in s.Envelopes[id]) == old(id in s.Envelopes && c in s.Envelopes[id])
+
+//@ func (*MemoryMetastore).LoadLatest
+//@   facet C13
+//@   safety C13
+//@   opt no-frame
+//@   opt old-at-acquire
+//@   requires s != nil && s.RWMutex == 0
+//@   loop 1 invariant [C13:keys-collected] len(createdKeys) == itercount() && (forall i int :: 0 <= i && i < len(createdKeys) ==> visited(createdKeys[i]) && createdKeys[i] in s.Envelopes[keyID])
+//@   loop 1 invariant [C13:visited-collected] forall k int64 :: visited(k) ==> 0 <= iterindex(k) && iterindex(k) < len(createdKeys) && createdKeys[iterindex(k)] == k
+//@   ensures [C13:lock-released] s.RWMutex == 0
+//@   ensures [C13:latest-nothing-when-absent] !old(keyID in s.Envelopes) ==> result == nil
+//@   ensures [C13:lemma-all-keys-visited] old(keyID in s.Envelopes) ==> (forall c int64 :: c in old(s.Envelopes[keyID]) ==> visited(c))
+//@   ensures [C13:lemma-sorted-holds-only-keys] old(keyID in s.Envelopes) ==> (forall i int :: 0 <= i && i < len(createdKeys) ==> createdKeys[i] in old(s.Envelopes[keyID]))
+//@   ensures [C13:lemma-collected-all] old(keyID in s.Envelopes) ==> len(createdKeys) == itercount() && itercount() == len(old(s.Envelopes[keyID])) && len(createdKeys) >= 1
+//@   ensures [C13:lemma-key-has-a-slot] old(keyID in s.Envelopes) ==> (forall c int64 :: c in old(s.Envelopes[keyID]) ==> 0 <= iterindex(c) && iterindex(c) < len(createdKeys))
+//@   ensures [C13:lemma-sorted-holds-every-key] old(keyID in s.Envelopes) ==> (forall c int64 :: c in old(s.Envelopes[keyID]) ==> (exists i int :: 0 <= i && i < len(createdKeys) && createdKeys[i] == c))
+//@   ensures [C13:lemma-last-bounds-all-keys] old(keyID in s.Envelopes) ==> (forall c int64 :: c in old(s.Envelopes[keyID]) ==> c <= createdKeys[len(createdKeys) - 1])
+//@   ensures [C13:lemma-last-is-a-key] old(keyID in s.Envelopes) ==> createdKeys[len(createdKeys) - 1] in old(s.Envelopes[keyID])
+//@   ensures [C13:lemma-result-is-last] old(keyID in s.Envelopes) ==> (forall m int64 :: m == createdKeys[len(createdKeys) - 1] ==> result == old(s.Envelopes[keyID][m]))
+//@   ensures [C13:latest-is-greatest] err == nil && (forall c int64 :: old(keyID in s.Envelopes && c in s.Envelopes[keyID]) ==> (exists m int64 :: old(m in s.Envelopes[keyID]) && result == old(s.Envelopes[keyID][m]) && c <= m))
+//@   ensures [C13:reads-change-nothing] forall id string, c int64 :: (id in s.Envelopes && c in s.Envelopes[id]) == old(id in s.Envelopes && c in s.Envelopes[id])
